@@ -206,7 +206,7 @@ def records(W, p):
 
     O = out.Output(dict(time=timer, state=S, grid=Grid()), filename=str(tmp / "o.nc"), output_period=600, layout=layout,
                    instance_variables=dict(pid=ovar("i4"), X=ovar("f8"), age=ovar("f8")), particle_variables=dict(w=ovar("f8")))
-    rows, wtab, npid = [], [], 0  # rows: everything still in the (ghost) state; dead ones leave at the next sparse write
+    rows, wtab, npid = {}, [], 0  # ghost: pid -> row of every particle ever released (whether the state still holds the dead is its own business)
     expect = []
     trace = []
     for t in range(depth):
@@ -217,23 +217,22 @@ def records(W, p):
         ws = [W.real(f"w{t}_{i}") for i in range(m)]
         S.append(X=W.arr(xs, "f"), Y=W.frac(1), Z=W.frac(2), w=W.arr(ws, "f"))
         for i in range(m):
-            rows.append(dict(pid=npid + i, X=xs[i], age=0, alive=True))
+            rows[npid + i] = dict(pid=npid + i, X=xs[i], age=0, alive=True)
         wtab += ws
         npid += m
-        n = len(rows)
-        kill = [W.truth(W.bool(f"k{t}_{k}")) for k in range(n)]
-        if n:
+        present = [int(q) for q in W.tolist(S.pid)]  # the kill mask addresses the particles the state holds now
+        kill = [W.truth(W.bool(f"k{t}_{q}")) for q in present]
+        if present:
             S.alive[W.arr(kill, "b")] = False
-        for k in range(n):
-            rows[k] = dict(rows[k], alive=rows[k]["alive"] and not kill[k])
+        for q, kq in zip(present, kill):
+            rows[q] = dict(rows[q], alive=rows[q]["alive"] and not kq)
         d = W.real(f"d{t}")
         S["age"] = S.age + d
-        rows = [dict(r, age=r["age"] + d) for r in rows]
+        for q in present:
+            rows[q] = dict(rows[q], age=rows[q]["age"] + d)
         O.update()
-        expect.append([dict(r) for r in rows if r["alive"]])
-        if layout == "sparse":
-            rows = [r for r in rows if r["alive"]]
-        trace.append((m, tuple(kill)))
+        expect.append([dict(rows[q]) for q in sorted(rows) if rows[q]["alive"]])
+        trace.append((m, tuple(zip(present, kill))))
     O.close()
     f = W.nc_read(tmp / "o.nc")
     info = dict(layout=layout, history=trace)
